@@ -812,6 +812,9 @@ func (x *Exec) checkFrame(st *State, r *ssa.Return) {
 		if allowedWild[k] {
 			continue
 		}
+		if k == ghClosed && !x.fnCloses() {
+			continue // only learned at receives (a closed channel observed), not written
+		}
 		entryArr := x.entry.heapArr(k, heapSorts[k])
 		if cur.Key() == entryArr.Key() {
 			continue
@@ -990,4 +993,15 @@ func (x *Exec) havocTyped(st *State, key string, tag *Term) {
 			st.add(g)
 		}
 	}
+}
+
+// fnCloses: does the function (or a callee, per its inferred frame) close a channel?
+func (x *Exec) fnCloses() bool {
+	if x.closesMemo == 0 {
+		x.closesMemo = 1
+		if x.P.ModSet(x.fn)[ghClosed] {
+			x.closesMemo = 2
+		}
+	}
+	return x.closesMemo == 2
 }
